@@ -72,9 +72,9 @@ CHECKS = {
    design_ref="DESIGN.md section 4 C08",
    note="Trusted: RefBtor (harness/src/refbtor.rs), RefSmt, solvers. Crashes on ill-sorted input are counted as observations (C18 is not claimed). Documented-unsupported operators are outside."),
  "C19": dict(
-   technique="SMT validation of rewrite-rule instances: for every width/sign assignment satisfying the real side condition, both patterns are instantiated, lowered by the real from_arith and proved equal for all operand values; from_arith itself is proved equal to an independent reading of the Arith term; to_arith/from_arith round trip proved equivalent",
+   technique="SMT validation of rewrite-rule instances: for every width/sign assignment satisfying the real side condition, both patterns are instantiated, lowered by the real from_arith and proved equal for all operand values; from_arith itself is proved equal to an independent reading of the Arith term; to_arith/from_arith round trip proved equivalent; the shipped rule set as egg applies it (create_egg_rewrites: conditions evaluated against the e-graph, WidthConstantFold) is run to saturation on generated expressions and every e-class member is lowered by from_arith and proved equal to the class reference for all operand values",
    category="translation_validation",
-   text="All rules of create_rewrites(), every width parameter 1..=4 (5 thorough) exhaustively, both signs, plus sampled larger widths; per instance three unsat queries (lhs==rhs, from_arith(lhs)==meaning(lhs), from_arith(rhs)==meaning(rhs)). Conversion: seeded expressions of the convertible fragment, from_arith(to_arith(e)) has the same width and is solver-proved equivalent.",
+   text="Saturation part: 800 (8000 thorough) expressions on which the rules fire, ONE rule set re-used across all e-graphs of a worker, 4 iterations / 4000 nodes; every bin-op e-node over the smallest child terms must be solver-equal to the original expression (root class) or to the class's first member. All rules of create_rewrites(), every width parameter 1..=4 (5 thorough) exhaustively, both signs, plus sampled larger widths; per instance three unsat queries (lhs==rhs, from_arith(lhs)==meaning(lhs), from_arith(rhs)==meaning(rhs)). Conversion: seeded expressions of the convertible fragment, from_arith(to_arith(e)) has the same width and is solver-proved equivalent.",
    design_ref="DESIGN.md section 4 C19",
    note="Trusted: RefSmt, solvers, the harness's reading of the Arith language (extend by sign to max width, apply, truncate). Instances no solver decides are listed, not counted."),
  "C20": dict(
@@ -92,7 +92,7 @@ CHECKS = {
  "C06": dict(
    technique="Kani/CBMC bounded model checking of the baa kernels that eval.rs calls (all operand values at concrete widths, unwinding assertions on) + SMT check of a syn-extracted encoding of the eval dispatch arms against RefSmt (all symbol values) + SMT check that every operator builder (Context methods and Builder closure API) returns a node meaning what the operator application means (all symbol values) + validation of the real eval_expr on enumerated boundary vectors against a big-integer reference",
    category="other",
-   text="K: one #[kani::proof] per (kernel, width) with both operands kani::any(), compared with a u128/i128 reference and required to be is_equal to the canonically constructed value: widths 8/64 (+1/63 thorough) for all operators incl. symbolic shift amounts and 64-bit mul, 65/128 for comparisons (quick: 65) and and/or/xor/not/add/sub/negate/slice/extend/concat (thorough). D: the 21 un_op/bin_op arms of eval_expr_internal, the pop order of bin_op and the child order of foreach.rs are re-extracted from the current source on every run and each arm is proved equal to the SMT-LIB operator for all values at widths 1..129. V: about 10^6 evaluations of the real evaluator (three symbol stores, short-circuit values, canonical-representation clause) on all literal classes incl. shift amounts >= width and >= 2^32 - enumeration, not a universally quantified verdict, and said so in the evidence.",
+   text="K: one #[kani::proof] per (kernel, width) with both operands kani::any(), compared with a u128/i128 reference and required to be is_equal to the canonically constructed value: widths 8/64 (+1/63 thorough) for all operators incl. symbolic shift amounts and 64-bit mul, 65/128 for comparisons (quick: 65) and and/or/xor/not/add/sub/negate/slice/extend/concat (thorough). D: the 21 un_op/bin_op arms of eval_expr_internal, the pop order of bin_op and the child order of foreach.rs are re-extracted from the current source on every run and each arm is proved equal to the SMT-LIB operator for all values at widths 1..129. V: about 10^6 evaluations of the real evaluator (four symbol stores incl. overwrite through update*, short-circuit values for children and grandchildren incl. supplied array values for store/ite/constant-array nodes, canonical-representation clause) on all literal classes incl. shift amounts >= width and >= 2^32 - enumeration, not a universally quantified verdict, and said so in the evidence.",
    design_ref="DESIGN.md section 4 C06",
    note="Trusted: CBMC/Kani soundness within unwinding bounds, RefSmt, the big-integer evaluator. Outside: division/remainder (documented unimplemented), mul above 64 bit, two-word shifts in CBMC (out of memory), array kernels (std HashMap), the evaluator's work-list loop (covered by V only). Two dependency defects are recorded known findings (shl dirty bits, non-extensional array equality)."),
 }
